@@ -27,10 +27,15 @@ Ints18 == { DD(FALSE, <<>>, 0), DD(FALSE, <<1>>, 0), DD(TRUE, <<1>>, 0), DD(FALS
 Texts == { <<49,50>>, <<45,49,46,53>>, <<49,101,51>>, <<48,48,55>>, <<97,98,99>>, <<>>, <<49,120>>, <<46,53>>, <<53,46>>, <<45,48>>, <<49,50,51,46,52,53,54,101,45,50>>,
            <<45>>, <<43>>, <<105,110>>, <<110,97>>, <<105>>, <<105,110,102,105,110,105,116>>, <<45,105,110>>, <<32>>, <<49,32>> }
 
-GroupsC18 == { <<"unary", f>> : f \in {"abs", "ceil", "floor", "round", "roundBank", "toInt", "toFloat", "finite"} }
+\* whole numbers that carry fractional zeros (computed: 0.5 * 4 = 2.0, 1.25 * 4 = 5.00, 2.5 - 0.5, -1.5 * 2)
+Scaled18 == { <<"Bin", "*", Lt(DD(FALSE, <<5>>, -1)), Lt(DD(FALSE, <<4>>, 0))>>, <<"Bin", "*", Lt(DD(FALSE, <<1,2,5>>, -2)), Lt(DD(FALSE, <<4>>, 0))>>,
+              <<"Bin", "-", Lt(DD(FALSE, <<2,5>>, -1)), Lt(DD(FALSE, <<5>>, -1))>>, <<"Bin", "*", Lt(DD(TRUE, <<1,5>>, -1)), Lt(DD(FALSE, <<2>>, 0))>>,
+              <<"Bin", "-", Lt(DD(FALSE, <<1,5>>, -1)), Lt(DD(FALSE, <<1,5>>, -1))>> }
+GroupsC18 == { <<"unary", f>> : f \in {"abs", "ceil", "floor", "round", "roundBank", "toInt", "toFloat", "finite"} } \cup { <<"scaled">> }
              \cup { <<"law">>, <<"conv">>, <<"tilde">> } \cup { <<"maxmin", a>> : a \in Small } \cup { <<"bit", a>> : a \in Ints18 }
 GroupProgramsC18(g) ==
   CASE g[1] = "unary" -> { C(g[2], <<Lt(x)>>) : x \in Grid }
+    [] g[1] = "scaled" -> { C(f, <<e>>) : f \in {"abs", "ceil", "floor", "round", "roundBank", "toInt", "toFloat", "finite"}, e \in Scaled18 }
     [] g[1] = "law" -> { <<"Bin", "===", C("toFloat", <<C("toString", <<Lt(x)>>)>>), Lt(x)>> : x \in Grid }
                        \cup { <<"Bin", "===", C("toFloat", <<C("toString", <<Id("f")>>)>>), Id("f")>> }
     [] g[1] = "conv" -> { C(f, <<S(t)>>) : f \in {"toInt", "toFloat", "finite"}, t \in Texts }
